@@ -26,6 +26,7 @@ import IgrisModel.C09.Bounded
 import IgrisModel.C09.Layout
 import IgrisModel.C09.Into
 import IgrisModel.C09.Cost
+import IgrisModel.C09.Writer
 namespace Igris.C09
 open Igris.Proto
 
@@ -910,5 +911,164 @@ example : Ty.noView (.map .str (.vec (.tuple [.sc .u8, .str]))) = true := by dec
 example : decodeB (.vec (.sc .u16)) [2, 0, 7] = some (.list [.sc 7, .sc 0], []) := rfl
 example : decodeA (.vec (.sc .u16)) ([2, 0, 7] ++ List.replicate 3 0#8 ++ [9]) = some (.list [.sc 7, .sc 0], [] ++ [9]) := rfl
 example : decodeC (.vec (.sc .u16)) ⟨[2, 0, 7], 0⟩ = some (.list [.sc 7, .sc 0], ⟨[2, 0, 7], 3⟩) := rfl
+
+
+/-! ### Round 3b — the fixed-buffer writer `binary_buffer_writer` (after repair) and the storage reader's allocation bound -/
+
+/-- WRITER SIDE BOUND. For every caller buffer `pre ++ free` with the write pointer behind `pre`, and EVERY sequence
+of `dump_data` calls (every `dump` of `binary_serializer_basic` ends in that virtual call, so: every value of every
+type): the buffer afterwards is `pre`, then the first `free.length` bytes of the concatenated chunks, then the part
+of `free` they do not reach; the pointer stands behind what was stored. The right-hand side is list arithmetic only. -/
+theorem buffer_writer_spec (pre free : List Byte) (cs : List (List Byte)) :
+    (BufW.mk (pre ++ free) pre.length).dumpAll cs =
+      ⟨pre ++ cs.flatten.take free.length ++ free.drop cs.flatten.length,
+       pre.length + min cs.flatten.length free.length⟩ := by
+  rw [bufw_dumpAll_split]
+  generalize cs.flatten = e
+  congr 1
+  simp only [List.length_append, List.length_take]
+  omega
+
+theorem bufw_spec_bounds (pre free e : List Byte) :
+    (pre ++ e.take free.length ++ free.drop e.length).length = (pre ++ free).length ∧
+    pre.length + min e.length free.length ≤ (pre ++ e.take free.length ++ free.drop e.length).length ∧
+    (pre ++ e.take free.length ++ free.drop e.length).take pre.length = pre ∧
+    (pre ++ e.take free.length ++ free.drop e.length).drop (pre.length + min e.length free.length) =
+      free.drop e.length := by
+  have hlen : (pre ++ e.take free.length ++ free.drop e.length).length = (pre ++ free).length := by
+    simp only [List.length_append, List.length_take, List.length_drop]; omega
+  refine ⟨hlen, ?_, ?_, ?_⟩
+  · rw [hlen, List.length_append]; omega
+  · rw [List.append_assoc, List.take_left']; rfl
+  · by_cases h : e.length ≤ free.length
+    · have h1 : e.take free.length = e := List.take_of_length_le h
+      have h3 : pre.length + min e.length free.length = (pre ++ e).length := by
+        rw [List.length_append]; omega
+      rw [h1, h3, List.drop_left]
+    · have h2 : free.drop e.length = [] := List.drop_eq_nil_of_le (by omega)
+      rw [h2]
+      apply List.drop_eq_nil_of_le
+      simp only [List.length_append, List.length_take, List.length_nil]; omega
+
+/-- … hence it never writes outside `[buf, _end)`: the extent of the buffer is unchanged, the bytes in front of the
+start position and behind the final position are the caller's, and the pointer never passes `_end` -/
+theorem buffer_writer_never_outside (pre free : List Byte) (cs : List (List Byte)) :
+    let w := (BufW.mk (pre ++ free) pre.length).dumpAll cs
+    w.data.length = (pre ++ free).length ∧ w.cursor ≤ w.data.length ∧
+      w.data.take pre.length = pre ∧ w.data.drop w.cursor = free.drop cs.flatten.length := by
+  simp only [buffer_writer_spec]
+  exact bufw_spec_bounds pre free cs.flatten
+
+/-- how the encoding is cut into `dump_data` calls does not matter: only the concatenation is observable -/
+theorem buffer_writer_chunking_irrelevant (pre free : List Byte) (cs : List (List Byte)) :
+    (BufW.mk (pre ++ free) pre.length).dumpAll cs = (BufW.mk (pre ++ free) pre.length).dumpAll [cs.flatten] := by
+  rw [buffer_writer_spec, buffer_writer_spec]; simp
+
+/-- a value of any type into a buffer of any capacity: the first `cap` bytes of its encoding, the rest of the buffer
+untouched, the pointer at `min(len, cap)` (what op `bwc` compares) -/
+theorem buffer_writer_value (ty : Ty) (v : Val) (fill : List Byte) :
+    bufWrite fill (encodeA ty v) =
+      ⟨(encodeA ty v).take fill.length ++ fill.drop (encodeA ty v).length, min (encodeA ty v).length fill.length⟩ := by
+  have := buffer_writer_spec [] fill [encodeA ty v]
+  simpa [bufWrite] using this
+
+/-- an EXACTLY fitting (or larger) buffer holds the whole encoding — no field is dropped — and decodes back to the
+value with the spare bytes left over -/
+theorem buffer_writer_exact_fit_roundtrip (ty : Ty) (v : Val) (fill : List Byte) (h : WF ty v)
+    (hfit : (encodeA ty v).length ≤ fill.length) :
+    (bufWrite fill (encodeA ty v)).cursor = (encodeA ty v).length ∧
+    (bufWrite fill (encodeA ty v)).data = encodeA ty v ++ fill.drop (encodeA ty v).length ∧
+    decodeB ty (bufWrite fill (encodeA ty v)).data = some (v, fill.drop (encodeA ty v).length) := by
+  rw [buffer_writer_value]
+  have h1 : (encodeA ty v).take fill.length = encodeA ty v := List.take_of_length_le hfit
+  rw [h1]
+  exact ⟨Nat.min_eq_left hfit, rfl, roundtrip_prefix_B ty v _ h⟩
+
+example : bufWrite [0xEE, 0xEE, 0xEE] (encodeA (.vec (.sc .u8)) (.list [.sc 7])) = ⟨[1, 0, 7], 3⟩ := by decide
+example : bufWrite [0xEE, 0xEE] (encodeA (.vec (.sc .u8)) (.list [.sc 7])) = ⟨[1, 0], 2⟩ := by decide
+example : WF (.vec (.sc .u8)) (.list [.sc 7]) := wfb_sound _ _ (by decide)
+
+/-- the code before the repair (`memcpy(ptr, dat, size)` with `_end` never consulted): a 2-byte chunk into a 1-byte
+buffer overwrites a byte that is not the caller's (the list grows); the repaired writer stores the byte that fits -/
+theorem buffer_writer_old_overflow_witness :
+    (BufW.mk [0xEE] 0).dumpDataOld [1, 2] = ⟨[1, 2], 2⟩ ∧ (BufW.mk [0xEE] 0).dumpData [1, 2] = ⟨[1], 1⟩ := by decide
+
+/-- where the buffer is large enough the repair changes nothing -/
+theorem buffer_writer_conservative (pre free dat : List Byte) (h : dat.length ≤ free.length) :
+    (BufW.mk (pre ++ free) pre.length).dumpData dat = (BufW.mk (pre ++ free) pre.length).dumpDataOld dat := by
+  simp only [BufW.dumpData, BufW.dumpDataOld, List.length_append, Nat.add_sub_cancel_left]
+  by_cases h2 : dat.length < free.length
+  · simp [h2]
+  · have : dat.length = free.length := by omega
+    simp [this]
+
+/-- ALLOCATION BOUND FOR THE STORAGE READER (was an oracle clause of `ds` only): a decode through
+`deserialize_buffer_storage` allocates at most `blank ty * (1 + 65535 * consumed bytes)` nodes, for every type the
+serializer stack accepts and EVERY input -/
+theorem decode_allocates_at_most_S (ty : Ty) (hs : ty.supportedS = true) (input : List Byte) (v : Val) (r : List Byte)
+    (h : decodeS ty input = some (v, r)) :
+    vsize v ≤ blank ty * (1 + 65535 * (input.length - r.length)) := by
+  rw [decodeS_eq_decodeB ty hs] at h
+  exact decode_allocates_at_most ty input v r h
+
+/-- the same for the literal cursor model (`size_t` cursor, wrapping subtraction): total on every input below 2^64
+bytes, and what it builds is bounded by what the cursor advanced -/
+theorem decode_allocates_at_most_cursor (ty : Ty) (hs : ty.supportedS = true) (input : List Byte)
+    (hsz : input.length < 2 ^ 64) :
+    ∃ v c, c ≤ input.length ∧ decodeC ty ⟨input, 0⟩ = some (v, ⟨input, c⟩) ∧
+      vsize v ≤ blank ty * (1 + 65535 * c) := by
+  obtain ⟨v, c, hc, e1, e2⟩ := storage_cursor_model ty input hsz
+  refine ⟨v, c, hc, e1, ?_⟩
+  have := decode_allocates_at_most_S ty hs input v _ e2
+  simpa [List.length_drop, Nat.sub_sub_self hc] using this
+
+/-- THE CAPPED LOADS AND THE RAW ARRAY ON EVERY INPUT (they are operations on the stream beside the universe `Ty`, so
+they get their own totality statement): `load(writable_buffer&)`, `load(char*, maxsz)` and `archive::data<T>(xs,N)`
+over the bounded reader return for EVERY input and every capacity, stay inside the input, and never deliver more than
+the destination holds -/
+theorem capped_load_total_B (input : List Byte) (cap : Nat) :
+    (∃ got c, c ≤ input.length ∧ loadWritableB input cap = some (got, input.drop c) ∧ got.length ≤ cap) ∧
+    (∃ got c, c ≤ input.length ∧ loadCharArrB input cap = some (got, input.drop c) ∧ got.length ≤ cap % 65536) := by
+  have key : ∀ (readsize : Nat → Nat) (k : Nat → Nat),
+      ∃ got c, c ≤ input.length ∧
+        (match loadScalarB .u16 input with
+         | none => none
+         | some (len, r) =>
+           match loadDataB r (readsize len) with
+           | none => none
+           | some (bs, r2) => some (bs, skipB r2 (k len))) = some (got, input.drop c) ∧
+        ∃ len, got.length = u16 (readsize len) := by
+    intro readsize k
+    obtain ⟨len, c1, hc1, e1⟩ := safe_loadScalarB .u16 input
+    obtain ⟨bs, c2, hc2, e2⟩ := safe_loadDataB (readsize len) (input.drop c1)
+    have hl := (loadDataB_spec _ _ _ _ e2).2.1
+    refine ⟨bs, min (c1 + c2 + k len) input.length, Nat.min_le_right _ _, ?_, len, hl⟩
+    simp only [e1, e2, skipB, List.drop_drop]
+    congr 2
+    by_cases h : c1 + c2 + k len ≤ input.length
+    · rw [Nat.min_eq_left h]
+    · rw [Nat.min_eq_right (by omega), List.drop_eq_nil_of_le (by omega), List.drop_eq_nil_of_le (Nat.le_refl _)]
+  constructor
+  · obtain ⟨got, c, hc, e, len, hl⟩ := key (fun len => if cap < len then cap else len) (fun len => len - (if cap < len then cap else len))
+    refine ⟨got, c, hc, e, ?_⟩
+    rw [hl]; unfold u16; split <;> omega
+  · obtain ⟨got, c, hc, e, len, hl⟩ := key (fun sz => if u16 cap < sz then u16 cap else sz) (fun sz => sz - (if u16 cap < sz then u16 cap else sz))
+    refine ⟨got, c, hc, e, ?_⟩
+    rw [hl]; unfold u16; split <;> omega
+
+theorem data_array_total_B (k : Sc) (n : Nat) (input : List Byte) :
+    ∃ xs c, c ≤ input.length ∧ c ≤ (n * k.width) % 65536 ∧ decodeDataB k n input = some (xs, input.drop c) := by
+  obtain ⟨bs, c, hc, e⟩ := safe_loadDataB (n * k.width) input
+  obtain ⟨_, _, c', hc1, hc2⟩ := loadDataB_spec _ _ _ _ e
+  have hd : (input.drop c).length = input.length - c := List.length_drop
+  have hcc : c ≤ (n * k.width) % 65536 := by unfold u16 at hc2; omega
+  have e' : loadDataB input (n * k.width) = some (bs, input.drop c) := e
+  exact ⟨chunks k.width n (bs ++ List.replicate (n * k.width - bs.length) 0#8), c, hc, hcc, by
+    simp only [decodeDataB, e']⟩
+
+example : loadWritableB [5, 0, 1, 2] 1 = some ([1], []) := by decide
+example : loadCharArrB [2, 0, 1, 2, 9] 1 = some ([1], [9]) := by decide
+
+example : Ty.supportedS (.vec (.vec (.sc .u16))) = true := by decide
 
 end Igris.C09
